@@ -51,3 +51,23 @@ Definition run_equal (r1 : res resource) (ops1 : list (str * value))
           obs_bool_res (equal_strict a b); obs_bool_res (equal a a)]
   | _, _ => OC "panic" []
   end.
+
+(** A soft resource whose type is replaced (SoftResource.SetType): check()
+    runs, then the pointer changes. *)
+Definition retype (r : resource) (t : type) : resource :=
+  match r with
+  | RSoft s => let s1 := soft_check s in RSoft (mkSoft t (s_id s1) (s_data s1))
+  | _ => r
+  end.
+
+Definition run_retype (t1 : type) (ops1 : list (str * value)) (t2 : type) (ops2 : list (str * value))
+           (fields : list str) : obs :=
+  match apply_sets (RSoft (soft_new t1)) ops1 with
+  | Ok r1 =>
+      let r2 := retype r1 t2 in
+      match apply_sets r2 ops2 with
+      | Ok r3 => OL [dump r1 fields; obs_struct r2; dump r2 fields; dump r3 fields; dump (retype r3 t1) fields]
+      | _ => OC "panic" []
+      end
+  | _ => OC "panic" []
+  end.
